@@ -66,7 +66,9 @@ class Ifma:
     RED = (1 << 51) + (1 << 13) - 1                # limbs 1..4
 
     # operand kinds: 'R' = reduced (output of the reduction), 'U' = unreduced
-    PRE = {'mul': ('R', 'R'), 'square': ('R',), 'negate_lazy': ('N',), 'diff_sum': ('N',), 'neg': ('R',), 'reduce': ('U',),
+    # 'M' = the documented operand range of the IFMA multiplier and squarer, limbs in [0, 2^52) (docs/ifma-notes.md);
+    # the crate's own reduction only produces 'R', a little above 2^51
+    PRE = {'mul': ('M', 'M'), 'square': ('M',), 'negate_lazy': ('N',), 'diff_sum': ('N',), 'neg': ('R',), 'reduce': ('U',),
            'mul_consts': ('R',), 'add': ('U2', 'U2'), 'shuffle': ('U',), 'blend': ('U', 'U'), 'csel': ('R', 'R')}
 
 
